@@ -70,13 +70,15 @@ def query_sanitisers(ctx) -> None:
         if not assigns:
             ctx.fail('C07.sanitiser', fn, f'clause `{clause}` is stored without passing any validator', store, key=f'{clause}:unvalidated')
             continue
+        applied = set()
         for a in assigns:
-            applied = _call_tails(a.value)
             # the validated value must derive from the clause parameter itself
-            derives = clause in core.names_in(a.value)
-            for v in required:
-                nob += 1
-                ctx.check(v in applied and derives, 'C07.sanitiser', fn, f'`{clause}` passes through {v} before being stored', a, key=f'{clause}:{v}')
+            if clause in core.names_in(a.value):
+                applied |= _call_tails(a.value)
+        for v in required:
+            nob += 1
+            ctx.check(v in applied, 'C07.sanitiser', fn, f'`{clause}` passes through {v} before being stored', assigns[0], key=f'{clause}:{v}')
+        for a in assigns:
             # the assignment is unconditional or guarded only by the presence of the clause
             gs = cfg.guards(a, fn.node, siblings=False)
             only_presence = all(core.src(t) in (f'{clause} is not None', clause) and pol for t, pol in gs)
@@ -116,12 +118,14 @@ def join_set(ctx) -> None:
     ctx.check(xor, 'C07.join', fn, 'a cross join has no condition and every other join has one: raise under (kind is CROSS) xor (condition is None)', fn.node, key='join:xor')
     assigns = [s for s in core.walk_local(fn.node) if isinstance(s, ast.Assign) and core.src(s.targets[0]) == 'condition']
     ctx.check(len(assigns) >= 1, 'C07.join', fn, 'join condition is validated', fn.node, key='join:validated')
+    applied = set()
     for a in assigns:
-        applied = _call_tails(a.value)
-        for v in ('Predicate.ensure_is', 'Cumulative.ensure_notin'):
-            ctx.check(v in applied and 'condition' in core.names_in(a.value), 'C07.join', fn, f'join condition passes through {v}', a, key=f'join:{v}')
+        if 'condition' in core.names_in(a.value):
+            applied |= _call_tails(a.value)
         gs = cfg.guards(a, fn.node, siblings=False)
         ctx.check(all(core.src(t) == 'condition is not None' and pol for t, pol in gs), 'C07.join', fn, 'condition validation skipped only when absent', a, key='join:guard')
+    for v in ('Predicate.ensure_is', 'Cumulative.ensure_notin'):
+        ctx.check(v in applied, 'C07.join', fn, f'join condition passes through {v}', assigns[0] if assigns else fn.node, key=f'join:{v}')
     subset = any(any(pol and t.startswith('not ') and 'dissect(condition)' in t and 'issubset' in t and 'left.features' in t and 'right.features' in t for t, pol in gs) for _, gs in conds)
     ctx.check(subset, 'C07.join', fn, 'join condition uses only elements of the two joined sources', fn.node, key='join:subset')
     ret = next((s for s in core.walk_local(fn.node) if isinstance(s, ast.Return)), None)
